@@ -86,6 +86,7 @@ def _make_body():
     body += '  fprintf(stdout, "I SAT_RESET_GUARDED %d\\n");\n' % r
     body += '  fprintf(stdout, "I CHAIN_WINDOW_US %d\\n");\n' % _chain_window_us()
     body += _shape_lines()
+    body += _boot_lines()
     # (call id, payload size accepted by srpc_getdata) of the calls a device handles: only for the case generator (json)
     for cid, size in VALID_SIZES:
         body += '  fprintf(stdout, "L VALIDSIZES %%d %%d\\n", (int)(%s), (int)(%s));\n' % (cid, size)
@@ -190,6 +191,63 @@ def _shape_lines():
     for name, fname, fn, rx in SHAPES:
         out += '  fprintf(stdout, "I %s %d\\n");\n' % (name, len(re.findall(rx, _fn_body(fname, fn))))
     return out
+
+# ---- boot decision of user_init(): truth tables of the `if (...) { ... supla_esp_cfgmode_start(); return; }` conditions ----
+# The condition text is cut out of the (comment-stripped) source, its atoms (`X[0] == 0`, `LocationID == 0`, `Flags & CFG_FLAG_Y`)
+# are replaced by variables and the remaining pure boolean formula (only ( ) ! && ||, same precedence in C and here) is evaluated
+# for every assignment: bit (sum atom_i << i) of the table = "configuration mode is started".  Any other token, an unknown atom or a
+# different number of such `if`s gives -1, so every change of the guard structure changes the constants the proofs fix.
+BOOT_ATOMS_MQTT = ['E_WIFI_SSID', 'E_WIFI_PWD', 'F_CFG_FLAG_MQTT_ENABLED', 'E_Server', 'F_CFG_FLAG_MQTT_NO_AUTH', 'E_Username', 'E_Password', 'E_Email']
+BOOT_ATOMS_LOCK = ['F_CFG_FLAG_MQTT_ENABLED', 'F_CFG_FLAG_DEVICE_LOCKED']
+BOOT_ATOMS_SUPLA = ['E_WIFI_SSID', 'E_WIFI_PWD', 'E_Server', 'E_Email', 'E_LocationID', 'E_LocationPwd']
+def _boot_conds():
+    """condition texts of the ifs of user_init() whose block calls supla_esp_cfgmode_start(), split by preprocessor branch"""
+    src = open(os.path.join(G.REPO, 'src', 'user', 'user_main.c')).read()
+    src = re.sub(r'/\*.*?\*/', '', src, flags=re.S); src = re.sub(r'//[^\n]*', '', src)
+    m = re.search(r'\buser_init\s*\([^;{)]*\)\s*\{', src)
+    if not m: return None
+    body = src[m.end():]
+    res = {'mqtt': [], 'plain': []}
+    # the decision sits in  #ifdef MQTT_SUPPORT_ENABLED <ifs> #else <if> #endif
+    for blk in re.finditer(r'#ifdef\s+MQTT_SUPPORT_ENABLED\b(.*?)#endif', body, flags=re.S):
+        parts = re.split(r'#else\b', blk.group(1))
+        for key, txt in zip(('mqtt', 'plain'), parts):
+            for im in re.finditer(r'\bif\s*\(', txt):
+                i = im.end(); depth = 1
+                while i < len(txt) and depth:
+                    depth += {'(': 1, ')': -1}.get(txt[i], 0); i += 1
+                cond = txt[im.end():i - 1]
+                b = re.match(r'\s*\{([^{}]*)\}', txt[i:])
+                if b and re.search(r'\bsupla_esp_cfgmode_start\s*\(\s*\)\s*;', b.group(1)): res[key].append(cond)
+    return res
+def _truth_table(cond, atoms):
+    t = cond
+    t = re.sub(r'supla_esp_cfg\.(\w+)\s*\[\s*0\s*\]\s*==\s*0\b', r' E_\1 ', t)
+    t = re.sub(r'supla_esp_cfg\.LocationID\s*==\s*0\b', ' E_LocationID ', t)
+    t = re.sub(r'supla_esp_cfg\.Flags\s*&\s*(CFG_FLAG_\w+)', r' F_\1 ', t)
+    toks = re.findall(r'[A-Za-z_]\w*|&&|\|\||!(?!=)|\(|\)|\S', t)
+    py = []
+    for k in toks:
+        if k in atoms: py.append('v[%d]' % atoms.index(k))
+        elif k == '&&': py.append(' and ')
+        elif k == '||': py.append(' or ')
+        elif k == '!': py.append(' not ')
+        elif k in '()': py.append(k)
+        else: return -1
+    expr = ''.join(py); tt = 0
+    try:
+        for a in range(1 << len(atoms)):
+            v = [bool((a >> i) & 1) for i in range(len(atoms))]
+            if eval(expr, {'__builtins__': {}}, {'v': v}): tt |= 1 << a
+    except Exception:
+        return -1
+    return tt
+def _boot_lines():
+    c = _boot_conds() or {'mqtt': [], 'plain': []}
+    mq = _truth_table(c['mqtt'][0], BOOT_ATOMS_MQTT) if len(c['mqtt']) == 2 else -1
+    lk = _truth_table(c['mqtt'][1], BOOT_ATOMS_LOCK) if len(c['mqtt']) == 2 else -1
+    pl = _truth_table(c['plain'][0], BOOT_ATOMS_SUPLA) if len(c['plain']) == 1 else -1
+    return ''.join('  fprintf(stdout, "I %s %d\\n");\n' % (n, v) for n, v in (('BOOT_TT_MQTT', mq), ('BOOT_TT_LOCKED', lk), ('BOOT_TT_PLAIN', pl)))
 
 class _LazyGroup(dict):
     """the call-site scan runs only when this group is actually generated"""
@@ -303,7 +361,10 @@ G.GROUPS['C12Consts'] = _LazyGroup(
         ('CHANNEL_MAX', '8 /* CHANNEL_MAX_COUNT is private to supla_esp_devconn.c */'),
         ('CFG_SECTOR_', 'CFG_SECTOR'),
         ('CFG_SIZE', 'sizeof(SuplaEspCfg)'),
+        ('CFGF_MQTT_ENABLED', 'CFG_FLAG_MQTT_ENABLED'), ('CFGF_MQTT_NO_AUTH', 'CFG_FLAG_MQTT_NO_AUTH'), ('CFGF_DEVICE_LOCKED', 'CFG_FLAG_DEVICE_LOCKED'),
+        ('CFG_OFF_EMAIL', _off('SuplaEspCfg', 'Email')), ('CFG_OFF_USERNAME', _off('SuplaEspCfg', 'Username')),
+        ('CFG_OFF_LOCPWD', _off('SuplaEspCfg', 'LocationPwd')), ('CFG_OFF_PASSWORD', _off('SuplaEspCfg', 'Password')),
     ] + [('FN_' + n, str(i)) for n, i in FID.items()],
-    extra_names=['CALLSITES', 'DISPATCH', 'SAT_DISARM_GUARDED', 'SAT_RESET_GUARDED', 'CHAIN_WINDOW_US'] + [x[0] for x in SHAPES],
+    extra_names=['CALLSITES', 'DISPATCH', 'SAT_DISARM_GUARDED', 'SAT_RESET_GUARDED', 'CHAIN_WINDOW_US'] + [x[0] for x in SHAPES] + ['BOOT_TT_MQTT', 'BOOT_TT_LOCKED', 'BOOT_TT_PLAIN'],
     flags=['-DVERIF_RETREIVE_CHANNEL_CONFIG'],
 )
